@@ -329,21 +329,21 @@ func tierN(cfg runCfg, quick, thorough int) int {
 
 func init() {
 	generators["C01"] = func(cfg runCfg, e *emitter, rng *rand.Rand) {
-		walk(cfg, e, rng, walkOpts{roots: true, nHist: tierN(cfg, 600, 8000), nBlocks: 11, maxAdd: tierN(cfg, 9, 40),
+		walk(cfg, e, rng, walkOpts{roots: true, nHist: tierN(cfg, 1500, 8000), nBlocks: 11, maxAdd: tierN(cfg, 9, 40),
 			rows: []uint8{0, 1, 3, 5, 31, 50, 63}, partRows: []uint8{0, 3, 63}})
 	}
 	generators["C02"] = func(cfg runCfg, e *emitter, rng *rand.Rand) {
-		walk(cfg, e, rng, walkOpts{prove: true, nHist: tierN(cfg, 300, 4000), nBlocks: 9, maxAdd: tierN(cfg, 9, 30),
+		walk(cfg, e, rng, walkOpts{prove: true, nHist: tierN(cfg, 700, 4000), nBlocks: 9, maxAdd: tierN(cfg, 9, 30),
 			rows: []uint8{0, 3, 50, 63}, partRows: []uint8{0, 4, 63}, prune: true})
 	}
 	generators["C10"] = func(cfg runCfg, e *emitter, rng *rand.Rand) {
-		walk(cfg, e, rng, walkOpts{lookups: true, nHist: tierN(cfg, 200, 3000), nBlocks: 8, maxAdd: tierN(cfg, 8, 20),
+		walk(cfg, e, rng, walkOpts{lookups: true, nHist: tierN(cfg, 400, 3000), nBlocks: 8, maxAdd: tierN(cfg, 8, 20),
 			rows: []uint8{0, 4, 63}})
 		// "incl. after Undo": look-ups, hashes and counts after every undo and redo
-		runUndoHistories(cfg, e, rng, tierN(cfg, 80, 1500))
+		runUndoHistories(cfg, e, rng, tierN(cfg, 150, 1500))
 	}
 	generators["C11"] = func(cfg runCfg, e *emitter, rng *rand.Rand) {
-		walk(cfg, e, rng, walkOpts{updateData: true, nHist: tierN(cfg, 1000, 12000), nBlocks: 11, maxAdd: tierN(cfg, 9, 40),
+		walk(cfg, e, rng, walkOpts{updateData: true, nHist: tierN(cfg, 2000, 12000), nBlocks: 11, maxAdd: tierN(cfg, 9, 40),
 			rows: nil})
 	}
 }
